@@ -220,6 +220,14 @@ func observeValidators(st *state.StateDB, o Obs) {
 // observing does not finalise the object under observation.
 func observeRoots(st *state.StateDB, o Obs) {
 	cp := st.Copy()
+	// the index the next log would get (StateDB.logSize is visible only through it): added on
+	// the throw-away copy, logs do not enter any root
+	cp.AddLog(&types.Log{Address: logProbeAddr})
+	for _, l := range cp.Logs() {
+		if l.Address == logProbeAddr {
+			o["log/next-index"] = fmt.Sprint(l.Index)
+		}
+	}
 	// Commit (not just IntermediateRoot) on the copy: RawDump reads delegation blobs, which
 	// only Commit inserts into the node database. The node database is content-addressed, so
 	// the extra (unreferenced) nodes cannot change what any root resolves to.
@@ -285,6 +293,8 @@ func dumpInto(db state.Database, r1, r2, r3 common.Hash, o Obs, prefix string, d
 		}
 	}
 }
+
+var logProbeAddr = common.HexToAddress("0x00000000000000000000000000000000000010a9")
 
 var (
 	emptyRoot     = common.HexToHash("56e81f171bcc55a6ff8345e692c0f86e5b48e01b996cadc001622fb5e363b421")
